@@ -11,6 +11,7 @@ from __future__ import annotations
 import copy
 import io
 import json
+import os
 import socket
 import types
 import urllib.error
@@ -97,6 +98,9 @@ def _gen_bundle(r) -> Dict[str, Any]:
     if r.chance(0.6):
         pol["epsilon_edit"] = r.choice([0.0, 0.05, 0.1, 0.5])
     nodes = [{"id": "n%d" % i, "label": r.choice(E.VOCAB), "delta": r.choice([0.0, 0.01, 0.05, 0.09, 0.1, 0.3, -0.2, -0.04])} for i in range(r.randint(0, 6))]
+    if r.chance(0.15):
+        # more distinct labels than a Speak op carries: which ones survive must be a function of the bundle, not of the process
+        nodes = [{"id": "n%d" % i, "label": lb, "delta": r.choice([0.0, 0.1, 0.3])} for i, lb in enumerate(r.sample(E.VOCAB, min(len(E.VOCAB), r.randint(7, 12))))]
     b: Dict[str, Any] = {
         "cfg": {"t3": {"tokens": r.choice([0, 1, 5, 256]), "max_rag_loops": r.choice([0, 1])}, "t2": {"owner_scope": r.choice(["any", "agent", "world"]), "k_retrieval": r.choice([1, 2, 10])}},
         "agent": {"caps": {"ops": r.choice([0, 1, 2, 3, 8])}},
@@ -485,6 +489,14 @@ def _turns(p: Dict[str, Any], stats: Dict[str, int]) -> List[Dict[str, Any]]:
     return viol
 
 
+_CHILDREN: Dict[str, Any] = {}
+
+
+def plan_ops_repr(bundle: Dict[str, Any]) -> List[str]:
+    """Runs in a child interpreter (another PYTHONHASHSEED): the plan of a bundle, as text."""
+    return [repr(o) for o in real_deliberate(bundle).ops]
+
+
 class _Echo:
     """An adapter that answers with five plain words."""
     name = "echo"
@@ -516,6 +528,20 @@ def _bundles(p: Dict[str, Any], stats: Dict[str, int]) -> List[Dict[str, Any]]:
         ops, ops2 = list(plan.ops), list(plan2.ops)
         if [repr(o) for o in ops] != [repr(o) for o in ops2]:
             bad("planner-not-a-function", "bundle#%d: %s vs %s" % (bi, ops, ops2))
+        n_labels = len({str(x) for x in (b0["text"]["labels_from_t1"] or [n.get("label") for n in b0["t1"]["touched_nodes"]])})
+        if n_labels > 5:
+            # the same bundle planned in an interpreter with another string-hash seed
+            from vsim.child import Child
+            hs = "7" if os.environ.get("PYTHONHASHSEED") != "7" else "11"
+            ch = _CHILDREN.get(hs)
+            if ch is None:
+                ch = _CHILDREN[hs] = Child(hashseed=hs)
+            other = ch.call("checks.c13", "plan_ops_repr", {"bundle": b0})
+            if isinstance(other, dict):
+                other = other.get("ok", other)
+            stats["planned_in_other_interpreter"] = stats.get("planned_in_other_interpreter", 0) + 1
+            if list(other) != [repr(o) for o in ops]:
+                bad("planner-depends-on-the-process", "bundle#%d with %d distinct labels: %s here, %s under PYTHONHASHSEED=%s" % (bi, n_labels, [repr(o) for o in ops][:1], list(other)[:1], hs))
         pol = ((b0["cfg"]["t3"].get("policy")) or {})
         th, tl, eps = float(pol.get("tau_high", 0.8)), float(pol.get("tau_low", 0.4)), float(pol.get("epsilon_edit", 0.10))
         s = float(b0["t2"]["metrics"]["sim_stats"]["max"])
